@@ -325,7 +325,7 @@ Proof.
       try specialize (N X); simpl in *; auto; try (match goal with |- context [mainpc ?s0] => destruct (mainpc s0) end; simpl in *; auto; lia).
   - unf0; brk; rp; ifs; simpl in *; rwg; simpl in *; intro X; try discriminate X;
       try specialize (N X); simpl in *; auto; try (match goal with |- context [mainpc ?s0] => destruct (mainpc s0) end; simpl in *; auto; lia).
-  - unf0; brk; rp; ifs; simpl in *; rwg; simpl in *; intro X; try discriminate X;
+  - unf0; brk; rp; ifs; simpl in *; rwg; simpl in *; intro X; try discriminate X; try congruence;
       try specialize (N X); simpl in *; auto; try (match goal with |- context [mainpc ?s0] => destruct (mainpc s0) end; simpl in *; auto; lia).
 Qed.
 
@@ -513,7 +513,7 @@ Proof.
   destruct (stuck_spec c s K) as (KM & KG & KE & KR & KMp).
   pose proof IA as (ST & (N & _) & (_ & _ & FE) & NW & _).
   assert (finished s = false) as F.
-  { unfold red_step, user_step in KR. rewrite Er in KR. destruct (finished s); [discriminate | reflexivity]. }
+  { unfold red_step, user_step in KR. rewrite Er in KR. destruct (finished s); [destruct (safe_out c); discriminate | reflexivity]. }
   assert (out_take s <> None) as OT by (unfold out_take; rewrite F, Er; discriminate).
   specialize (NW F). unfold nw in NW. rewrite Er in NW. simpl in NW.
   specialize (KM BOut). unfold main_step in KM.
